@@ -530,11 +530,13 @@ def check(repo, run, tier):
     g(unitrules.namespace_assembly, repo, run, 'C01.R10')
     g(unitrules.tag_spec, repo, run, 'C01.R2', ['!null'])
     g(unitrules.make_node_table, repo, run, 'C01.R1c')
+    g(unitrules.metadata_syntax_table, repo, run, 'C01.R7')
     g.done()
 
 
 def mutants(repo):
     return [
+        Mutant('metadata-end-not-found', lambda r: in_func(r, 'yaml._get_metadata_end', "        if end == -1:", "        if end != -1:"), ['C01.R7']),
         Mutant('mapping-arguments-dropped', lambda r: in_func(r, 'yaml._make_node', "        kwargs.update(data)\n", ""), ['C01.R1c']),
         Mutant('namespace-members-stay-on-class', lambda r: in_func(r, 'NamespaceableMeta.__init__', "                    delattr(cls, name)\n", "                    pass\n"), ['C01.R10']),
         Mutant('metadata-fields-not-extracted', lambda r: in_func(r, 'yaml._decode_metadata', "        if special in metadata:", "        if special not in metadata:"), ['C01.R2']),
